@@ -443,6 +443,8 @@ def kind_churn_scripts(seed, per_kind, n_ops, tid0, kinds=None, far=False):
             rng = random.Random((seed * 7919 + ki * 104729 + j * 31) & 0xFFFFFFFF)
             pool = [0, 1, 2, 3, 4, 5, 6, 7] if not (far and j % 2) else [0, 1, 63, 64, 65, 127, 128, 4095, 4096]
             keep = sorted(rng.sample(pool, rng.randint(3, 6)))
+            if j % 5 == 0:
+                keep = list(range(rng.randint(3, 6)))        # no gaps: every index up to the highest holds an entity
             nh = len(keep)
             ops = [{"o": "prealloc", "n": keep[-1] + 1, "keep": keep}]
             for _ in range(n_ops):
